@@ -32,7 +32,7 @@ class Node:
 SFN_CHARS = "ABCDEFGHIJKLMNOPQRSTUVWXYZ0123456789!#$%&'()-@^_`{}~"
 
 class Builder:
-    def __init__(self, rng, force_top=None, stale_count=None):
+    def __init__(self, rng, force_top=None, stale_count=None, full_root=False):
         """force_top = 12 | 16: a volume with exactly the maximal cluster count of that FAT width (4084 / 65524) holding a file
         TOPCHAIN.BIN whose chain runs THROUGH the highest cluster number (0xFF5 / 0xFFF5) - a legal link value on such a volume"""
         self.r = rng
@@ -40,6 +40,9 @@ class Builder:
         # stale_count = k: a FAT32 volume whose information sector stores a free count SMALLER than reality (k clusters; the
         # specification calls the stored count a hint that "is not necessarily correct")
         self.stale_count = stale_count
+        # full_root: a FAT12/16 volume whose fixed root directory is used up to its very last slot by live entries (no end
+        # marker anywhere in the region - legal, and what a full root of another implementation looks like)
+        self.full_root = full_root
 
     def pick_geometry(self):
         r = self.r
@@ -58,12 +61,20 @@ class Builder:
             self.bits = self.force_top; self.maxfat = True
         if self.stale_count is not None:
             self.bits = 32; self.maxfat = False; self.spc = 1; self.clusters = r.range(65525, 66500)
+        if self.full_root:
+            self.bits = r.choice([12, 16]); self.maxfat = False
+            if self.bits == 12:
+                self.spc = r.choice([1, 2, 4]); self.clusters = r.range(20, 400)
+            else:
+                self.spc = r.choice([1, 2]); self.clusters = r.range(4085, 4600)
         if self.maxfat:
             self.spc = 1
             self.clusters = (4084 if self.bits == 12 else 65524) - (0 if self.force_top else r.below(4))
         self.fats = r.choice([1, 2, 2, 3])
         self.reserved = r.range(1, 5) if self.bits != 32 else r.choice([8, 16, 32])
         self.root_entries = 0 if self.bits == 32 else r.choice([1, 2, 4, 16]) * (self.bps // 32)
+        if self.full_root:
+            self.root_entries = (1 if r.chance(1, 2) else 2) * (self.bps // 32)
         self.media = r.choice([0xF8, 0xF0, 0xF9])
         entries = self.clusters + 2
         fat_bytes = {12: (entries * 3 + 1) // 2, 16: entries * 2, 32: entries * 4}[self.bits]
@@ -174,6 +185,9 @@ class Builder:
                     fill(n, depth + 1)
                 d.children.append(n)
         fill(self.root, 0)
+        if self.full_root and not any(c.kind == "dir" for c in self.root.children):
+            n = Node("dir"); n.sfn = b"SUBDIR     "; n.attr = 0x10
+            self.root.children.append(n)
         if self.force_top:
             n = Node("file"); n.sfn = b"TOPCHAINBIN"; n.attr = 0x20
             n.content = bytes((i * 11 + 5) & 0xFF for i in range(3 * self.cs + r.range(1, self.cs)))
@@ -281,6 +295,12 @@ class Builder:
                 slots += self.slots_for(n)
             if label_at == len(d.children):
                 slots.append(self.label_slot()); self.has_label = True
+            if is_root and self.full_root:
+                k = 0
+                while len(slots) < self.root_entries:
+                    n = Node("file"); n.sfn = b"PAD%05dBIN" % k; n.attr = 0x20; k += 1
+                    d.children.append(n)
+                    slots += self.slots_for(n)
             return slots
         self.has_label = False
         # root first (so that sub-directory chains exist when their parents are serialised)
